@@ -12,7 +12,7 @@ for log in sys.argv[1:]:
         sd, prop, ex, dw, dwo, rc, viol = m.groups()
         base = os.path.basename(sd)
         sid = base.replace("seed_", "")
-        for rnd in ("2", "3", "4", "5", "6"):
+        for rnd in ("2", "3", "4", "5", "6", "7"):
             if base.startswith("seed%s_" % rnd):
                 pr, n = base[len("seed%s_" % rnd):].rsplit("_", 1)
                 sid = "%s_r%s_%s" % (pr, rnd, n)
